@@ -12,9 +12,9 @@ VARIABLE st
 Nat10(s) == CASE s = "1" -> 1 [] s = "2" -> 2 [] s = "3" -> 3 [] s = "4" -> 4
 MaxFill == Nat10(IOEnv.MAXFILL)
 
-\* quick tier (QUICK = "1"): five contexts x five variants; thorough: everything
+\* quick tier (QUICK = "1"): six contexts x five variants; thorough: everything
 Quick == IOEnv.QUICK = "1"
-CtxSel == IF Quick THEN {1, 2, 3, 4, 7} ELSE 1..Len(Contexts)
+CtxSel == IF Quick THEN {1, 2, 3, 4, 7, 8} ELSE 1..Len(Contexts)
 VarSel == IF Quick THEN {1, 2, 3, 5, 6} ELSE 1..Len(Variants)
 InitG == st \in { [g |-> "case", t |-> t, c |-> c, f |-> f, v |-> v] :
                   t \in 1..Len(Templates), c \in CtxSel, f \in 1..MaxFill, v \in VarSel }
